@@ -257,6 +257,9 @@ let judge _id (c : cursor) (r : cursor) : bool * string =
     let site = "RTBSS::sampleAction" in
     (match peek r with "THROW" | "CRASH" | "TIMEOUT" | "SANITIZER" -> oracle_fail "solver_returns" site "implementation did not return" | _ -> ());
     let ia = next_int r in let iv = q_of_float (float_of_string (next r)) in
+    (* the same query on an RTBSS object that answered another query before: nothing may carry over *)
+    let ia2 = next_int r in let iv2 = q_of_float (float_of_string (next r)) in
+    if ia2 <> ia || not (q_eq iv2 iv) then oracle_fail "rtbss_reuse" site (Printf.sprintf "fresh object: action %d value %s; reused object: action %d value %s" ia (string_of_q iv) ia2 (string_of_q iv2));
     let ev = eV_r m (nat_of_int h) b in
     if not (closeq ev iv) then oracle_fail "rtbss_value" site (Printf.sprintf "EV=%s impl=%s" (string_of_q ev) (string_of_q iv));
     (* returned action attains the value *)
